@@ -280,8 +280,11 @@ impl RefBus for RBus {
 
 #[derive(Clone, Copy, Debug, PartialEq, Eq)]
 pub enum DivKind {
-    /// ordered value history (addresses/data of reads, writes, port cycles) or registers differ
+    /// registers / hidden state differ after the instruction
     Value,
+    /// registers agree, but the ordered bus value history (addresses/data of reads, writes, port
+    /// cycles) differs: a matter of both C01 (sequence of accesses) and C03 (bus cycles)
+    Bus,
     /// values agree, the timed cycle list differs
     Timing,
     /// values agree, but the two CPUs sampled the interrupt lines a different number of times
@@ -354,6 +357,9 @@ pub struct StepOutcome {
     pub div: Option<Divergence>,
     pub timing_div: Option<Divergence>,
     pub sampling_div: Option<Divergence>,
+    /// prefix-chain step in which the two CPUs fetched a different number of opcode bytes: the
+    /// instruction boundaries could not be aligned (a bus-cycle matter; C02 does not judge it)
+    pub unaligned: bool,
     pub pre: CpuState,
     pub post: CpuState,
     pub ev_impl: Vec<Ev>,
@@ -415,18 +421,26 @@ impl WorldA {
         if info.ambiguous.is_some() {
             self.dirty = true;
             let post = CpuState::from_ref(&self.rcpu);
-            return StepOutcome { info, ambiguous: true, div: None, timing_div: None, sampling_div: None, pre, post, ev_impl: vec![], sampled, lines };
+            return StepOutcome { info, ambiguous: true, div: None, timing_div: None, sampling_div: None, unaligned: false, pre, post, ev_impl: vec![], sampled, lines };
         }
         // implementation: one emulate() per prefix-chain link
         self.cpu.emulate(&mut self.bus);
         self.bus.commit_samples();
         let mut guard = 0;
-        while self.cpu.verif_prefix_pending() && guard < 4096 {
+        // the implementation may take several emulate() calls for one prefix chain; besides its own
+        // "prefix pending" flag, keep going while the reference consumed a chain and the PCs differ
+        // alignment of prefix chains: the implementation is done when it has fetched the same final
+        // opcode byte (address of the last M1) as the reference
+        let last_m1 = |ev: &Vec<Ev>| ev.iter().rev().find_map(|e| if let Ev::Rd { clk: 4, addr, .. } = e { Some(*addr) } else { None });
+        let ref_last = last_m1(&self.rbus.ev);
+        while (self.cpu.verif_prefix_pending() || (info.ignored_prefixes > 0 && guard < 2 * info.ignored_prefixes as usize + 2 && last_m1(&self.bus.ev) != ref_last)) && guard < 4096
+        {
             self.cpu.emulate(&mut self.bus);
             self.bus.commit_samples();
             guard += 1;
         }
         self.steps += 1;
+        let unaligned = info.ignored_prefixes > 0 && last_m1(&self.bus.ev) != ref_last;
         let post_i = CpuState::from_impl(&mut self.cpu);
         let post_r = CpuState::from_ref(&self.rcpu);
         let accepted = info.accepted != Accepted::None;
@@ -436,9 +450,7 @@ impl WorldA {
         let vr: Vec<(u8, u16, u8)> = er.iter().filter_map(|e| e.value()).collect();
         let mut what = None;
         let mut kind = DivKind::Value;
-        if vi != vr {
-            what = Some(format!("bus value history differs: impl [{}] ref [{}]", show_evs(&ei), show_evs(&er)));
-        } else if let Some((name, a, b)) = {
+        let regs_diff = {
             // Q after a *repeating* block iteration is unobservable (the next instruction is the block
             // instruction itself, which does not read Q, or an interrupt entry, which clears it)
             let mut pi = post_i.clone();
@@ -449,8 +461,16 @@ impl WorldA {
                 pi.no_sample = post_r.no_sample;
             }
             pi.diff(&post_r, 0)
-        } {
-            what = Some(format!("{} = {:04X}, reference {:04X} after the instruction", name, a, b));
+        };
+        if let Some((name, a, b)) = regs_diff {
+            what = Some(if vi != vr {
+                format!("{} = {:04X}, reference {:04X} after the instruction; bus history impl [{}] ref [{}]", name, a, b, show_evs(&ei), show_evs(&er))
+            } else {
+                format!("{} = {:04X}, reference {:04X} after the instruction", name, a, b)
+            });
+        } else if vi != vr {
+            kind = DivKind::Bus;
+            what = Some(format!("bus value history differs: impl [{}] ref [{}]", show_evs(&ei), show_evs(&er)));
         } else if self.bus.out.samples != self.rbus.out.samples {
             kind = DivKind::Sampling;
             what = Some(format!(
@@ -525,7 +545,7 @@ impl WorldA {
                 lines_involved: accepted || lines.0 || lines.1,
             };
             match kind {
-                DivKind::Value => div = Some(d),
+                DivKind::Value | DivKind::Bus => div = Some(d),
                 DivKind::Timing => timing_div = Some(d),
                 DivKind::Sampling => {
                     sampling_div = Some(d);
@@ -534,7 +554,7 @@ impl WorldA {
                 }
             }
         }
-        StepOutcome { info, ambiguous: false, div, timing_div, sampling_div, pre, post: post_r, ev_impl: self.bus.ev.clone(), sampled, lines }
+        StepOutcome { info, ambiguous: false, div, timing_div, sampling_div, unaligned, pre, post: post_r, ev_impl: self.bus.ev.clone(), sampled, lines }
     }
 }
 
